@@ -67,3 +67,25 @@ def structural(descs):
         common = set.intersection(*keys)
         out[n] = (cands[0], [m for m in cands[0].msgs if m.skey() in common])
     return out
+
+
+def decode(enum, v):
+    """the documented decoding of an enum-typed integer"""
+    if enum.bitfield:
+        names = [n for n, val in enum.entries if val & v]
+        return names or ['(none)']
+    names = [n for n, val in enum.entries if val == v]
+    return names or ['INVALID ENUM VALUE']
+
+
+def enum_candidates(iface_cand, path, winners_map):
+    """enums an enum attribute can denote: `name` in the same description, or `iface.name` in any
+    maximal-version description of the other interface"""
+    parts = path.split('.')
+    if len(parts) == 1:
+        e = iface_cand.enums.get(parts[0])
+        return [e] if e is not None else []
+    other = winners_map.get(parts[-2])
+    if other is None:
+        return []
+    return [c.enums[parts[-1]] for c in other[0] if parts[-1] in c.enums]
